@@ -36,6 +36,21 @@ CLAIMED["C04"] = dict(
     technique="Lean 4 proof (builder invariant WF, per-rule post-conditions, compaction/renumbering simulation) + structural correspondence",
 )
 
+CLAIMED["C10"] = dict(
+    text="Lean theorem C10_equiv: for EVERY SSA circuit that passes validate (any gate list, repeated operands, outputs that are "
+         "inputs or repeated, unused gates, any fan-out) the model of RegisterAllocator::convert_circuit never panics, emits the "
+         "Input instructions party by party in order, reports and_ops = and_gates, declares max_reg_count <= wires_len, and its "
+         "STRICT evaluation (fails on reading a never-written register, a register >= max_reg_count or a missing input) returns "
+         "exactly the SSA outputs for every input of the declared shape. Proof by a simulation invariant (live wires mapped "
+         "injectively to registers holding their values; free list disjoint). The model is tied to register_circuit.rs by exact "
+         "structural correspondence (identical instruction lists) on random well-formed circuits and compiler output. That the "
+         "converted circuit passes Reg.validate is checked by correspondence only (theorem C10_valid not yet proved).",
+    design_ref="DESIGN.md §6 C10",
+    note="trusted: Lean kernel; axioms propext/Classical.choice/Quot.sound; Model/RegAlloc.lean (HashMaps keyed by wire modelled "
+         "as lists indexed by wire) tied by structural correspondence; u32 register numbers not modelled (Nat)",
+    technique="Lean 4 proof (simulation between SSA evaluation and strict register evaluation) + structural correspondence",
+)
+
 NOT_YET = "not claimed yet: model/proof for this property is still being built in this session (see DESIGN.md §10 order of work)"
 
 
